@@ -33,5 +33,7 @@ StepConforms ==
        ELSE (<<e.ip, e.sp - prev.sp>> \in SuccOp(prev.op, prev.a, prev.b, prev.ip, 0)) \/ Report("bad-successor", <<prev, e>>)
 \* a finished evaluation leaves exactly its result
 FinalSP == (pi <= Len(Progs) /\ l = Len(Steps) /\ Progs[pi].k = "ok" /\ ~Progs[pi].truncated) =>
-              (Progs[pi].final_sp = 0 \/ Report("final-sp", Progs[pi].final_sp))
+              /\ (Progs[pi].final_sp = 0 \/ Report("final-sp", Progs[pi].final_sp))
+              \* also when the VM that ran it evaluates the code again (twice more): again_sp = -9 when not applicable
+              /\ (Progs[pi].again_sp \in {0, -9} \/ Report("final-sp-on-reused-vm", Progs[pi].again_sp))
 =============================================================================
